@@ -103,6 +103,11 @@ class SinkWorld(World):
                 v = it.rv(it.eval(args[0], frame))
                 if isinstance(v, PyVec):
                     return v
+            if ts.startswith("xt::xtensor_container<") and len(args) >= 2:
+                # container(shape, fill value[, layout]): one flag / value per node
+                fillv = it.rv(it.eval(args[1], frame))
+                if isinstance(fillv, (bool, int, float)):
+                    return PyVec([fillv] * len(self.elev))
             return NOT_HANDLED
         if bn == "xt::zeros":
             return PyVec([False] * len(self.elev))
